@@ -360,3 +360,80 @@ target(PRP + "unlock",
        canary=lambda c: c.self._write_lock_count == 0, equivalent_mutants=PR_EQUIV)
 undecided("PackRepository write locks are purely logical: no physical lock is taken by lock_write (by design); "
           "branches, working trees and RemoteRepository lock wrappers are not under contract")
+
+# =====================================================================================
+# DirStateWorkingTree: branch lock, then control files, then the dirstate file lock; undone in reverse on failure
+# =====================================================================================
+BL = cls("BranchLock", fields=dict(depth=INT))
+assumed(("BranchLock", "lock_read"), result=NONE, modifies=["self.depth"], ensures=lambda c: c.self.depth == c.old.self.depth + 1)
+assumed(("BranchLock", "lock_write"), modifies=["self.depth"], ensures=lambda c: c.self.depth == c.old.self.depth + 1)
+assumed(("BranchLock", "unlock"), result=NONE, modifies=["self.depth"], ensures=lambda c: c.self.depth == c.old.self.depth - 1,
+        raises={"Exception": lambda c: c.self.depth == c.old.self.depth - 1},
+        note="Branch.unlock always gives its hold back, even when it reports an error")
+DS = cls("DirState", fields=dict(_lock_token=Opt(ANY), acquired=INT, released=INT))
+assumed(("DirState", "lock_read"), result=NONE, modifies=["self._lock_token", "self.acquired"],
+        requires=lambda c: c.self._lock_token.is_none,
+        ensures=lambda c: And(Not(c.self._lock_token.is_none), truthy(c.self._lock_token), c.self.acquired == c.old.self.acquired + 1),
+        note="raises LockContention (nothing changed) when another process holds the dirstate")
+assumed(("DirState", "lock_write"), result=NONE, modifies=["self._lock_token", "self.acquired"],
+        requires=lambda c: c.self._lock_token.is_none,
+        ensures=lambda c: And(Not(c.self._lock_token.is_none), truthy(c.self._lock_token), c.self.acquired == c.old.self.acquired + 1))
+WT = cls("DirStateWorkingTree", fields=dict(branch=BL, _control_files=LF, _ds=DS))
+assumed("self.current_dirstate", pure=True, returns=lambda c: c.self._ds, raises={"Exception": None},
+        note="returns the tree's (cached) dirstate object; reading it may fail, changing no lock")
+
+
+def wt_inv(s):
+    return And(lf_inv(s._control_files), s.branch.depth >= 0,
+               Implies(Not(s._ds._lock_token.is_none), truthy(s._ds._lock_token)),
+               # the dirstate file is locked only while the control files are
+               Implies(s._control_files._lock_count == 0, s._ds._lock_token.is_none))
+
+
+def wt_acquired(c, mode):
+    s, o = c.self, c.old.self
+    return And(wt_inv(s), s.branch.depth == o.branch.depth + 1,
+               s._control_files._lock_count == o._control_files._lock_count + 1,
+               Not(s._ds._lock_token.is_none),
+               s._ds.acquired == o._ds.acquired + If(o._ds._lock_token.is_none, 1, 0), s._ds.released == o._ds.released)
+
+
+def wt_rolled_back(c, depth_delta=0):
+    """A refused lock leaves the tree exactly as unlocked/locked as it was."""
+    s, o = c.self, c.old.self
+    return And(s.branch.depth == o.branch.depth + depth_delta,
+               s._control_files._lock_count == o._control_files._lock_count,
+               s._control_files._lock_mode == o._control_files._lock_mode,
+               s._control_files._transaction == o._control_files._transaction,
+               s._control_files._lock.acquired - s._control_files._lock.released
+               <= o._control_files._lock.acquired - o._control_files._lock.released + 1,
+               s._ds._lock_token == o._ds._lock_token, s._ds.acquired == o._ds.acquired, s._ds.released == o._ds.released)
+
+
+WTP = "breezy/bzr/workingtree_4.py::DirStateWorkingTree."
+WT_MOD = ["self.branch.depth", "self._control_files.*", "self._ds._lock_token", "self._ds.acquired", "self._repo_supports_tree_reference"]
+target(WTP + "lock_read", requires=lambda c: wt_inv(c.self), modifies=WT_MOD,
+       ensures={"acquired_in_order": lambda c: wt_acquired(c, "r"), "returns_a_lock_result": lambda c: Not(c.result.is_none)},
+       raises={"Exception": lambda c: wt_rolled_back(c)},
+       canary=lambda c: c.self.branch.depth == 0,
+       equivalent_mutants={r"_repo_supports_tree_reference": "tree-reference support flag: outside the locking property"})
+
+LOCK_SELF_W = verified(("DirStateWorkingTree", "_lock_self_write"),
+                       requires=lambda c: And(wt_inv(c.self), c.self.branch.depth >= 1),
+                       modifies=WT_MOD,
+                       ensures=lambda c: And(wt_inv(c.self), c.self.branch.depth == c.old.self.branch.depth,
+                                             c.self._control_files._lock_count == c.old.self._control_files._lock_count + 1,
+                                             Not(c.self._ds._lock_token.is_none), Not(c.result.is_none),
+                                             c.self._ds.acquired == c.old.self._ds.acquired + If(c.old.self._ds._lock_token.is_none, 1, 0),
+                                             c.self._ds.released == c.old.self._ds.released),
+                       # on failure the caller's branch lock is given back as well
+                       raises={"Exception": lambda c: wt_rolled_back(c, -1)})
+target(WTP + "_lock_self_write", contract=LOCK_SELF_W, canary=lambda c: c.self.branch.depth == 0,
+       equivalent_mutants={r"_repo_supports_tree_reference": "tree-reference support flag: outside the locking property"})
+target(WTP + "lock_tree_write", requires=lambda c: wt_inv(c.self), modifies=WT_MOD,
+       ensures={"acquired_in_order": lambda c: wt_acquired(c, "w"), "returns_a_lock_result": lambda c: Not(c.result.is_none)},
+       raises={"Exception": lambda c: wt_rolled_back(c)}, canary=lambda c: c.self.branch.depth == 0)
+target(WTP + "lock_write", requires=lambda c: wt_inv(c.self), modifies=WT_MOD,
+       ensures={"acquired_in_order": lambda c: wt_acquired(c, "w"), "returns_a_lock_result": lambda c: Not(c.result.is_none)},
+       raises={"Exception": lambda c: wt_rolled_back(c)}, canary=lambda c: c.self.branch.depth == 0)
+undecided("DirStateWorkingTree.unlock (dirstate save/flush) is not under contract")
